@@ -914,13 +914,13 @@ fn check_pure(path: &str, stats: &mut Stats) -> Verdict {
 
 // ---------- redirection of the process's stdout / stdin (print*, cgetline) ----------
 
-struct Capture {
+pub(crate) struct Capture {
     saved: i32,
     file: PathBuf,
 }
 
 impl Capture {
-    fn new() -> Self {
+    pub(crate) fn new() -> Self {
         use std::io::Write;
         let _ = std::io::stdout().flush();
         let file = scratch().join("stdout");
@@ -935,7 +935,7 @@ impl Capture {
     }
 
     /// what was written to stdout since the last call
-    fn take(&mut self) -> String {
+    pub(crate) fn take(&mut self) -> String {
         use std::io::Write;
         let _ = std::io::stdout().flush();
         let text = std::fs::read(&self.file).map(|b| String::from_utf8_lossy(&b).into_owned()).unwrap_or_default();
